@@ -616,7 +616,7 @@ pub fn gen_pkgs(rng: &mut Rng, opts: &LibOpts, names: &mut Names) -> Vec<Pkg> {
     let mut pkgs = Vec::new();
     let versioned = opts.versions && rng.chance(2, 3);
     let base_version = if versioned {
-        Some(rng.pick(&["1.0.0", "0.2.0", "1.2.3", "2.0.1"]).to_string())
+        Some(rng.pick(&["1.0.0", "0.2.0", "1.2.3", "2.0.1", "1.9.0", "0.2.9"]).to_string())
     } else {
         None
     };
@@ -634,6 +634,9 @@ pub fn gen_pkgs(rng: &mut Rng, opts: &LibOpts, names: &mut Names) -> Vec<Pkg> {
                 "1.0.0" => "1.1.0",
                 "0.2.0" => "0.2.4",
                 "1.2.3" => "1.3.0",
+                // a component gains a digit: version order differs from the order of the names
+                "1.9.0" => "1.10.0",
+                "0.2.9" => "0.2.10",
                 _ => "2.1.0",
             };
             let mut p2 = base.clone();
@@ -662,8 +665,8 @@ pub fn gen_pkgs(rng: &mut Rng, opts: &LibOpts, names: &mut Names) -> Vec<Pkg> {
         if rng.chance(1, 3) {
             // a different track with its own content
             let other = match v.as_str() {
-                "1.0.0" | "1.2.3" => "2.0.0",
-                "0.2.0" => "0.3.0",
+                "1.0.0" | "1.2.3" | "1.9.0" => "2.0.0",
+                "0.2.0" | "0.2.9" => "0.3.0",
                 _ => "3.0.0",
             };
             let mut p3 = Pkg { ns: "ns".into(), name: "lib".into(), version: Some(other.into()), ifaces: vec![] };
